@@ -353,14 +353,22 @@ def bd4(prog, rr):
     for n in walk_local(rnd.node):
         if isinstance(n, ast.For) and any(d is x for d in draws for x in walk_local(n)):
             lp_var = norm(n.target)
-    single = [d for d in draws if len(d.args) == 2 and "range_l[0]" in norm(d.args[0])]
-    for d in single:
-        a = [norm(x) for x in d.args]
-        ok = a == ["range_l[0][0]", "range_l[0][1]"] and any("domain.range_l" in x for x in defs.get("range_l", [])) \
-            and any(("bound_m[%s]" % lp_var) in x for x in defs.get("bounds", []))
+    from sa.ir import expand_locals
+    # the draw whose two arguments are the two ends of one interval (the other draw picks an index)
+    n_single = 0
+    for d in draws:
+        if len(d.args) != 2:
+            continue
+        a = [expand_locals(rnd.node, x) for x in d.args]
+        if not (a[0].endswith("[0][0]") or a[1].endswith("[0][1]")):
+            continue
+        n_single += 1
+        want = "bound_m[%s].domain.range_l[0]" % lp_var
+        ok = a == [want + "[0]", want + "[1]"]
         rr.inst("draw %s" % norm(d))
         if not ok:
             rr.finding(rnd, d, "Randomizer.randomize", "BD4: an unconstrained field is drawn from (%s), not from the two ends of its own inferred range" % ", ".join(a))
+    rr.require(n_single >= 1, "single-interval draw of the unconstrained fields not found")
     sw = prog.method("SolveGroupSwizzlerPartsel", "swizzle_field")
     fp = sw.params[1]
     t = norm(sw.node)
@@ -476,13 +484,28 @@ def ds2(prog, rr):
     rr.inst("distselect")
     from sa.ir import find_local
     apps = [n for n in walk_local(d.node) if isinstance(n, ast.Call) and call_name(n) == "append" and n.args and isinstance(n.args[0], ast.Tuple)]
-    rr.require(apps, "distselect: (weight, index) vector not found")
-    wv = recv_text(apps[0])
+    # ... or built by a comprehension:  weight_v = [(int(v), i) for i, v in enumerate(weight_l)]
+    comps = [n for n in walk_local(d.node) if isinstance(n, ast.Assign) and len(n.targets) == 1 and isinstance(n.targets[0], ast.Name)
+             and isinstance(n.value, ast.ListComp) and isinstance(n.value.elt, ast.Tuple)]
+    rr.require(apps or comps, "distselect: (weight, index) vector not found")
+    wv = recv_text(apps[0]) if apps else comps[0].targets[0].id
     for a in apps:
         if not (isinstance(a.args[0], ast.Tuple) and len(a.args[0].elts) == 2):
             rr.finding(d, a, "distselect", "DS2: weight vector entries are not (weight, index) pairs")
+    for c in comps:
+        el = c.value.elt.elts
+        gen = c.value.generators[0]
+        idx = gen.target.elts[0].id if (isinstance(gen.target, ast.Tuple) and isinstance(gen.iter, ast.Call) and call_name(gen.iter) == "enumerate"
+                                        and isinstance(gen.target.elts[0], ast.Name)) else None
+        if len(el) != 2 or idx is None or norm(el[1]) != idx or c.value.generators[0].ifs:
+            rr.finding(d, c, "distselect", "DS2: weight vector entries are not (weight, original index) pairs for every entry")
     draws = [n for n in walk_local(d.node) if isinstance(n, ast.Call) and norm(n.func) == "random.randint"]
     tot = [x.target.id for x in walk_local(d.node) if isinstance(x, ast.AugAssign) and isinstance(x.op, ast.Add) and isinstance(x.target, ast.Name)]
+    # ... or total = sum(e[0] for e in weight_v)
+    tot += [x.targets[0].id for x in walk_local(d.node) if isinstance(x, ast.Assign) and len(x.targets) == 1 and isinstance(x.targets[0], ast.Name)
+            and isinstance(x.value, ast.Call) and call_name(x.value) == "sum" and x.value.args
+            and isinstance(x.value.args[0], (ast.GeneratorExp, ast.ListComp)) and norm(x.value.args[0].generators[0].iter) == wv
+            and norm(x.value.args[0].elt) == norm(x.value.args[0].generators[0].target) + "[0]"]
     if not draws or not (len(draws[0].args) == 2 and norm(draws[0].args[0]) == "1" and norm(draws[0].args[1]) in tot):
         rr.finding(d, d.node, "distselect", "DS2: the draw is not randint(1, total weight)", text="draw")
     rv = find_local(d.node, lambda v: isinstance(v, ast.Call) and norm(v.func) == "random.randint")
@@ -528,7 +551,8 @@ def cv12(prog, rr):
     f = prog.method("WildcardBinFactory", "str2bin")
     arms = []
     for n in walk_local(f.node):
-        if isinstance(n, ast.For) and "val[2:]" in norm(n.iter):
+        # a digit loop: iterates characters and shifts an accumulator
+        if isinstance(n, ast.For) and any(isinstance(x, ast.AugAssign) and isinstance(x.op, ast.LShift) for x in walk_local(n)):
             arms.append(n)
     rr.require(len(arms) == 3, "str2bin: expected three base arms, found %d" % len(arms))
     wild = None
@@ -538,7 +562,19 @@ def cv12(prog, rr):
         ors = {norm(x.target): x.value for x in walk_local(a) if isinstance(x, ast.AugAssign) and isinstance(x.op, ast.BitOr)}
         rt = [r for r in walk_local(f.node) if isinstance(r, ast.Return) and isinstance(r.value, ast.Tuple) and len(r.value.elts) == 2]
         rr.require(rt, "str2bin does not return a pair")
-        VAL, MSK = norm(rt[0].value.elts[0]), norm(rt[0].value.elts[1])
+        R0, R1 = norm(rt[0].value.elts[0]), norm(rt[0].value.elts[1])
+        # roles inside the arm: the accumulator that receives int(c, radix) is the value, the other shifted one the mask
+        VAL = next((t for t, v in ors.items() if isinstance(v, ast.Call) and call_name(v) == "int"), R0)
+        MSK = next((t for t in shifts if t != VAL), R1)
+        if (VAL, MSK) != (R0, R1):
+            # they must reach the returned pair in that order
+            flows = [x for x in walk_local(f.node) if isinstance(x, ast.Assign) and len(x.targets) == 1 and isinstance(x.targets[0], ast.Tuple)
+                     and [norm(e) for e in x.targets[0].elts] == [R0, R1] and isinstance(x.value, ast.Tuple)
+                     and [norm(e) for e in x.value.elts] == [VAL, MSK]]
+            if not flows:
+                rr.finding(f, a, "WildcardBinFactory.str2bin", "CV12: the accumulators of this arm (%s, %s) do not reach the returned pair (%s, %s) as "
+                           "(value, mask)" % (VAL, MSK, R0, R1), text="arm roles")
+                continue
         k = shifts.get(VAL)
         rr.inst("str2bin arm shift=%s" % k)
         if k is None or shifts.get(MSK) != k:
@@ -578,6 +614,8 @@ def cv12(prog, rr):
     for lp in walk_local(sm.node):
         if isinstance(lp, ast.For):
             lpv = norm(lp.target)
+        elif isinstance(lp, (ast.GeneratorExp, ast.ListComp)) and lp.generators:
+            lpv = norm(lp.generators[0].target)
     from sa.ir import find_local
     vals = find_local(sm.node, lambda v: "get_val()" in norm(v)) or ["val"]
     for t in tests:
